@@ -41,6 +41,21 @@ pub fn check_slice(e: &Entry, bytes: &[u8], family: &str, stats: &mut Stats) -> 
 			),
 		));
 	}
+	// the same through `Decode::skip`, which may take bulk paths of its own
+	let (sok, scount, sconsumed) = guard(|| (e.counted_skip.unwrap())(bytes))
+		.map_err(|p| Violation::new(format!("C19/panic/{}", e.ty.family()), format!("type {}: skip: {p}", e.name)))?;
+	stats.class(if sok { "skip-outcome:ok" } else { "skip-outcome:err" });
+	if scount != sconsumed as u64 {
+		return Err(Violation::new(
+			format!("C19/skip-count-vs-consumed/{}", if sok { "ok" } else { "err" }),
+			format!(
+				"type {}: after Decode::skip through CountedInput, count() = {scount} but the wrapped slice delivered {sconsumed} bytes (skip {})\nbytes {}",
+				e.name,
+				if sok { "succeeded" } else { "failed" },
+				hex(bytes)
+			),
+		));
+	}
 	if ok {
 		if let Ok((_, used)) = reference {
 			if used as u64 != count {
@@ -203,7 +218,7 @@ pub fn run(ctx: &Ctx) -> (Level, Report) {
 	(
 		Level {
 			level: "exploration",
-			rule: "(decodable zoo type, byte string from the C03 families): decode through CountedInput over a slice, count() == bytes the slice \
+			rule: "(decodable zoo type, byte string from the C03 families): decode and Decode::skip through CountedInput over a slice, count() == bytes the slice \
 delivered, on success and on failure, and == the reference encoded length on success; CountedInput at every position of every wrapper stack \
 containing it, over a hand-written logging input that sums the reads it successfully served; saturation: generated read sequences starting at \
 u64::MAX-k through the cfg-guarded constructor, compared with min(u64::MAX, start + delivered). Non-trivial = failing decode that had \
